@@ -461,3 +461,6 @@ pub fn views() {
     witness!(which == 4 && r > 0, "views.preview_withdraw_positive");
     end_checks(DECLARED);
 }
+
+// the post-condition macros are reused by the example-contract family (src/examples.rs, mod vault_ex)
+pub(crate) use {deposit_post, prop2, withdraw_post};
